@@ -96,6 +96,10 @@ pub struct Ctx {
     pub evaluations: u64,
     /// distinct non-trivial cases (counted by the engines; see each engine's rule)
     pub nontrivial: u64,
+    /// violations per (property, operation class): which call sites fail
+    pub viol_by_op: BTreeMap<String, u64>,
+    /// first violation seen per (property, operation class)
+    pub first_by_op: BTreeMap<String, Violation>,
 }
 
 impl Default for Ctx {
@@ -119,6 +123,8 @@ impl Ctx {
             machinery_errors: Vec::new(),
             evaluations: 0,
             nontrivial: 0,
+            viol_by_op: BTreeMap::new(),
+            first_by_op: BTreeMap::new(),
         }
     }
     pub fn fork(&self) -> Ctx {
@@ -162,8 +168,18 @@ impl Ctx {
             extra: self.here.extra.clone(),
             msg,
         };
+        let opc = v.op.split([' ', '{', '(']).next().unwrap_or("").to_string();
         for i in 1..NPROPS {
             if props & (1 << i) != 0 {
+                let key = format!("{}:{}", pname(i), opc);
+                *self.viol_by_op.entry(key.clone()).or_insert(0) += 1;
+                let better = match self.first_by_op.get(&key) {
+                    None => true,
+                    Some(b) => v.rank() < b.rank(),
+                };
+                if better {
+                    self.first_by_op.insert(key, v.clone());
+                }
                 self.viol_total[i] += 1;
                 let better = match &self.best[i] {
                     None => true,
@@ -218,6 +234,18 @@ impl Ctx {
         for s in o.samples {
             if self.samples.len() < self.max_samples {
                 self.samples.push(s);
+            }
+        }
+        for (k, v) in o.viol_by_op {
+            *self.viol_by_op.entry(k).or_insert(0) += v;
+        }
+        for (k, v) in o.first_by_op {
+            let better = match self.first_by_op.get(&k) {
+                None => true,
+                Some(b) => v.rank() < b.rank(),
+            };
+            if better {
+                self.first_by_op.insert(k, v);
             }
         }
         self.machinery_errors.extend(o.machinery_errors);
@@ -413,6 +441,18 @@ impl EngineReport {
             .set("caps_hit", self.caps_hit.clone())
             .set("machinery_errors", self.cx.machinery_errors.clone())
             .set("wall_s", self.started.elapsed().as_secs_f64());
+        let mut vbo = J::obj();
+        for (k, v) in &self.cx.viol_by_op {
+            vbo.put(k, *v);
+        }
+        j.put("violations_by_op", vbo);
+        let per_site: Vec<J> = self
+            .cx
+            .first_by_op
+            .iter()
+            .map(|(k, v)| v.to_json().set("reported_for", k.split(':').next().unwrap_or("")).set("site", k.as_str()))
+            .collect();
+        j.put("violations_per_site", J::Arr(per_site));
         for (k, v) in &self.extra {
             j.put(k, v.clone());
         }
